@@ -6,6 +6,7 @@ import (
 	"github.com/tevino/abool"
 
 	"github.com/safing/portbase/database/record"
+	"github.com/safing/portbase/utils/vhook"
 )
 
 // Iterator defines the iterator structure.
@@ -33,6 +34,7 @@ func (it *Iterator) Finish(err error) {
 	if it.doneClosed.SetToIf(false, true) {
 		close(it.Done)
 	}
+	vhook.At("db.iter.finish")
 
 	it.errLock.Lock()
 	defer it.errLock.Unlock()
